@@ -193,8 +193,8 @@ def Err.isMissing (peel : Bool) : Err → Bool
 
 /-- the reader configuration that differs between the pinned commit and the repaired tree -/
 structure Cfg where
-  /-- `Option` reader / defaulted fields / `Vec` / `HashMap` / `Lazy::load` look at the root cause of a
-      wrapped error and count `UnspecifiedXRefEntry` as a missing object -/
+  /-- the `Option` reader, the derived field readers and `Lazy::load` look at the root cause of a wrapped error
+      (`PdfError::is_missing_object`) and count `UnspecifiedXRefEntry` as a missing object -/
   peel : Bool
   deriving DecidableEq, Repr
 
@@ -223,7 +223,7 @@ def readShape (cfg : Cfg) (sem : Sem) (env : Env) : Shape → Prim → R Val
     -- `Array(_) => p.resolve(r)?.into_array()?…`, `Null => []`, `Reference(id) => Self::from_primitive(resolve(id)?)`,
     -- `_ => vec![T::from_primitive(p)]`
     match (if p.isRef then chase env env.depth p else .ok p) with
-    | .error e => if cfg.peel && e.isMissing true then .ok (.list []) else .error e
+    | .error e => .error e
     | .ok (.arr xs) =>
       match mapR (fun x => readShape cfg sem env a x) xs with
       | .ok vs => .ok (.list vs)
@@ -235,7 +235,7 @@ def readShape (cfg : Cfg) (sem : Sem) (env : Env) : Shape → Prim → R Val
       | .error e => .error e
   | .hashMap a, p =>
     match (if p.isRef then chase env env.depth p else .ok p) with
-    | .error e => if cfg.peel && e.isMissing true then .ok (.map []) else .error e
+    | .error e => .error e
     | .ok .null => .ok (.map [])
     | .ok (.dict kvs) =>
       match mapKV (fun x => readShape cfg sem env a x) kvs with
@@ -351,16 +351,22 @@ def readDefaulted (cfg : Cfg) (sem : Sem) (env : Env) (f : Field) (dx : String) 
         if cfg.peel && e.isMissing true then sem.dflt dx acc
         else .error (.fromPrimitive f.ident e)
 
+/-- "Try to construct T from Primitive::Null": the absent-entry path of a field without default -/
+def readAbsent (cfg : Cfg) (sem : Sem) (env : Env) (f : Field) : R Val :=
+  match readShape cfg sem env f.shape .null with
+  | .ok v => .ok v
+  | .error _ => .error (.missingEntry f.ident)
+
+/-- a field without default. Repaired reader (`cfg.peel`): an entry that refers to an object that does not exist
+    is read like an absent entry (pinned commit: a `FromPrimitive` error). -/
 def readPlain (cfg : Cfg) (sem : Sem) (env : Env) (f : Field) : Option Prim → R Val
   | some p =>
     match readShape cfg sem env f.shape p with
     | .ok v => .ok v
-    | .error e => .error (.fromPrimitive f.ident e)
-  | none =>
-    -- "Try to construct T from Primitive::Null"
-    match readShape cfg sem env f.shape .null with
-    | .ok v => .ok v
-    | .error _ => .error (.missingEntry f.ident)
+    | .error e =>
+      if cfg.peel && e.isMissing true then readAbsent cfg sem env f
+      else .error (.fromPrimitive f.ident e)
+  | none => readAbsent cfg sem env f
 
 /-- how one keyed field is read from the entry found under its key -/
 def readField (cfg : Cfg) (sem : Sem) (env : Env) (f : Field) (acc : List Val) (entry : Option Prim) : R Val :=
@@ -460,8 +466,8 @@ def findDisc (i : Int) : List Variant → Option Variant
   | [] => none
   | v :: vs => if v.disc = some i then some v else findDisc i vs
 
-/-- enum values are carried in their written form: `leaf (name n)` / `leaf (int i)` -/
-def readEnum (S : Schema) (p : Prim) : R Val :=
+/-- the derived enum readers after the reference has been resolved -/
+def readEnumPrim (S : Schema) (p : Prim) : R Val :=
   match S.kind with
   | .intEnum =>
     match p with
@@ -476,6 +482,13 @@ def readEnum (S : Schema) (p : Prim) : R Val :=
       | some _ => .ok (.leaf (.name n))
       | none => if S.variants.any (·.other) then .ok (.leaf (.name n)) else .error .other
     | _ => .error .other
+
+/-- `match p.resolve(resolve)? { … }` (the repaired derive; at the pinned commit the match was on `p` itself and a
+    reference was refused). Enum values are carried in their written form: `leaf (name n)` / `leaf (int i)`. -/
+def readEnum (env : Env) (S : Schema) (p : Prim) : R Val :=
+  match resolve1 env p with
+  | .error e => .error e
+  | .ok q => readEnumPrim S q
 
 /-- which carried values are values of the enum: a listed variant, or (with an `other` variant) any name -/
 def enumValid (S : Schema) : Val → Bool
@@ -587,15 +600,16 @@ def baseRdPrim (env : Env) (leaf : String) (p : Prim) : R Prim :=
       else .error .other
     | .ok _ => .error .other
   | "Matrix" =>
-    -- `p.into_array()?` (no resolve), then the first six elements
-    match p with
-    | .arr xs =>
+    -- `p.resolve(resolve)?.into_array()?`, then the first six elements
+    match resolve1 env p with
+    | .error e => .error e
+    | .ok (.arr xs) =>
       if xs.length ≥ 6 then
         match numbers (xs.take 6) with
         | .ok ys => .ok (.arr ys)
         | .error e => .error e
       else .error .other
-    | _ => .error .other
+    | .ok _ => .error .other
   | "PlainRef" => if p.isRef then .ok p else .error .other
   | _ => .error .oof
 
@@ -736,6 +750,24 @@ def readPagesRc (cfg : Cfg) (schemas : List Schema) (inner : Sem) (env : Env) (w
     | .ok _ => .error .other
   else .error (.tryE .other)
 
+/-- `vec![a, b, ..]` with integer literals and names of earlier fields (`XRefInfo::index`: `vec![0, size]`) -/
+def vecDefault (schemas : List Schema) (dx : String) (acc : List Val) : Option Val :=
+  if dx.startsWith "vec![" && dx.endsWith "]" then
+    let inner := ((dx.drop 5).toString.dropEnd 1).toString
+    let owner := schemas.find? fun S => S.fields.any fun f => f.default == some dx
+    let elems := (inner.splitOn ",").map fun e => e.trimAscii.toString
+    let vals := elems.map fun e =>
+      match e.toInt? with
+      | some i => some (Val.leaf (.int i))
+      | none =>
+        match owner with
+        | some S => match (S.keyed.map (·.ident)).idxOf? e with
+          | some i => acc[i]?
+          | none => none
+        | none => none
+    if vals.all Option.isSome then some (.list (vals.filterMap id)) else none
+  else none
+
 /-- one more level of derived models on top of `inner` -/
 def structSem (cfg : Cfg) (schemas : List Schema) (inner : Sem) : Sem where
   rd := fun env s p =>
@@ -745,7 +777,7 @@ def structSem (cfg : Cfg) (schemas : List Schema) (inner : Sem) : Sem where
       | some S =>
         match S.kind with
         | .struct => readStruct cfg inner env S p
-        | .nameEnum | .intEnum => readEnum S p
+        | .nameEnum | .intEnum => readEnum env S p
         | _ => .error .oof
       | none => .error .oof
     | .modelApp n t =>
@@ -779,7 +811,10 @@ def structSem (cfg : Cfg) (schemas : List Schema) (inner : Sem) : Sem where
   dflt := fun dx acc =>
     match pathDefault schemas dx with
     | some v => .ok v
-    | none => inner.dflt dx acc
+    | none =>
+      match vecDefault schemas dx acc with
+      | some v => .ok v
+      | none => inner.dflt dx acc
 
 /-- `n` levels of nested derived models over the hand-written leaves -/
 def semN (cfg : Cfg) (schemas : List Schema) : Nat → Sem
